@@ -385,7 +385,12 @@ func (w *World) run() {
 			w.runClient()
 			return
 		}
-		err := gnet.Run(&handler{w}, w.addr, w.options()...)
+		var err error
+		if w.multi() {
+			err = gnet.Rotate(&handler{w}, []string{w.addr, w.addr2()}, w.options()...)
+		} else {
+			err = gnet.Run(&handler{w}, w.addr, w.options()...)
+		}
 		w.runDone, w.runErr, w.runDoneStep = true, err, w.s.Step()
 		w.logf("run returned err=%v", err)
 	})
@@ -564,6 +569,33 @@ func (w *World) peerAddr(i int) unix.Sockaddr {
 	}
 }
 
+// multi: the engine is started with Rotate on two listeners (the second one
+// on another port, or a unix socket next to a tcp listener).
+func (w *World) multi() bool {
+	return w.p.Cfg.Listeners >= 2 && w.p.UDP == nil && !w.p.Cfg.Client && w.p.Cfg.Network != "unix"
+}
+
+func (w *World) addr2() string {
+	if w.p.Cfg.Listeners == 3 {
+		return "unix:///tmp/verif-sim-second.sock"
+	}
+	return fmt.Sprintf("%s://%s:9001", w.p.Cfg.Network, w.p.Cfg.Host)
+}
+
+// keyFor returns the listener a peer connects to: peers alternate between the
+// listeners of a Rotate engine.
+func (w *World) keyFor(i int) string {
+	keys := w.k.ListenKeys()
+	sort.Strings(keys)
+	if len(keys) == 0 {
+		return ""
+	}
+	if w.multi() {
+		return keys[i%len(keys)]
+	}
+	return w.curKey()
+}
+
 func (w *World) curKey() string {
 	if w.listenKey != "" {
 		return w.listenKey
@@ -587,7 +619,7 @@ func (w *World) peerEnabled(ps *peerState) bool {
 		if ps.refused || w.s.Step() < ps.cp.Start && !ps.startNow {
 			return false
 		}
-		key := w.curKey()
+		key := w.keyFor(ps.idx)
 		if w.p.Cfg.Serial && w.inTransit() {
 			return false
 		}
@@ -612,7 +644,12 @@ func (w *World) peerEnabled(ps *peerState) bool {
 
 func (w *World) peerStep(ps *peerState) {
 	if !ps.connected {
-		cli, err := w.k.PeerConnect(w.curKey(), w.peerAddr(ps.idx))
+		key := w.keyFor(ps.idx)
+		from := w.peerAddr(ps.idx)
+		if len(key) > 5 && key[:5] == "unix:" {
+			from = &unix.SockaddrUnix{Name: ""}
+		}
+		cli, err := w.k.PeerConnect(key, from)
 		if err != nil {
 			ps.refused, ps.done = true, true
 			w.logf("peer%d connect refused", ps.idx)
@@ -769,7 +806,7 @@ func (w *World) onQuiescent(idle int) int {
 				continue
 			}
 			if !ps.connected {
-				if w.booted && !w.k.Listening(w.curKey()) || w.runDone {
+				if w.booted && !w.k.Listening(w.keyFor(ps.idx)) || w.runDone {
 					ps.done, ps.refused = true, true
 					progressed = true
 				} else if w.booted && w.s.Step() < ps.cp.Start && !ps.startNow {
